@@ -13,7 +13,7 @@ run_demo() {
     bash $SD/demo.sh > $SD/.demo_run.txt 2>&1; echo "demo.sh exit=$?"
   elif [ -f $SD/demo.rs ]; then
     cp $SD/demo.rs $WT/tests/zz_seed_demo.rs
-    FEAT=""; grep -q "anthem::verif" $SD/demo.rs && FEAT="--features verif"
+    FEAT=""; grep -qE "anthem::verif|verif::|feature = .verif." $SD/demo.rs && FEAT="--features verif"
     cargo test --offline $FEAT --test zz_seed_demo > $SD/.demo_run.txt 2>&1; echo "demo.rs exit=$? $(grep -E '^test result' $SD/.demo_run.txt | tail -1)"
     rm -f $WT/tests/zz_seed_demo.rs
   else echo "no demo"; fi
